@@ -13,7 +13,7 @@ import sys, os, json, subprocess, shutil, glob
 VERIF = os.path.dirname(os.path.dirname(os.path.abspath(__file__)))
 WT = '/tmp/seedrun_wt_%d' % os.getpid()
 EXTRA = {'C01': ['C12', 'C17', 'C18'], 'C03': ['C01', 'C17'], 'C12': ['C09', 'C01'], 'C16': ['C11'], 'C02': ['C17'],
-         'C17': ['C01', 'C02', 'C16', 'C20'], 'C18': ['C12', 'C20']}
+         'C17': ['C01', 'C02', 'C16', 'C20'], 'C18': ['C01', 'C12', 'C20']}
 
 
 def sh(cmd, cwd=None, env=None, timeout=3600):
